@@ -52,7 +52,7 @@ type frame struct {
 }
 
 func newFnExec(p *Prog, fn *ssa.Function, fc *FuncContract) *FnExec {
-	return &FnExec{Ctx: newCtx(p), fn: fn, fc: fc, pathCap: 6000, heapSorts: map[string]string{},
+	return &FnExec{Ctx: newCtx(p), fn: fn, fc: fc, pathCap: 4096, heapSorts: map[string]string{},
 		ords: map[*ssa.Function]map[ssa.Instruction]string{}, inlined: map[string]bool{}, havocked: map[string]bool{},
 		assumed: map[string]bool{}, loopsOf: map[*ssa.Function]*loopInfo{}, fieldIDs: map[string]int{}, implQueries: map[int]types.Type{}, boundAsserts: map[string]bool{}}
 }
@@ -369,7 +369,7 @@ func (fx *FnExec) execBlock(st *State, fr *frame, b *ssa.BasicBlock, pred *ssa.B
 	if st.dead {
 		return
 	}
-	if fx.paths > fx.pathCap {
+	if fx.paths > fx.pathCap || len(fx.obls) > 60000 {
 		fx.truncated = true
 		return
 	}
@@ -443,6 +443,15 @@ func (fx *FnExec) evalPhis(st *State, b *ssa.BasicBlock, pred *ssa.BasicBlock) {
 // step executes one instruction; returns false when the path ended or control
 // was transferred (terminators handle successors themselves).
 func (fx *FnExec) step(st *State, fr *frame, ins ssa.Instruction) bool {
+	if v, ok := ins.(ssa.Value); ok {
+		defer func() {
+			if t, has := st.vals[v]; has && len(t) > 320 {
+				if _, isTuple := v.Type().(*types.Tuple); !isTuple {
+					st.vals[v] = st.nameIfLarge(t, fx.sortOf(v.Type()))
+				}
+			}
+		}()
+	}
 	switch x := ins.(type) {
 	case *ssa.DebugRef:
 		return true
@@ -1235,10 +1244,39 @@ func (fx *FnExec) doRecv(st *State, fr *frame, x *ssa.UnOp) {
 	// receiving empties a one-slot buffer
 	ln := st.ghostLoad("chanlen", "Int", c)
 	st.ghostStore("chanlen", "Int", c, "(ite (and "+ok+" (> "+ln+" 0)) (- "+ln+" 1) "+ln+")")
+	fx.chanMsgTransfer(st, fr, et, v, ok, false, x)
 	if x.CommaOk {
 		st.tups[x] = []Term{v, ok}
 	} else {
 		st.vals[x] = v
+	}
+}
+
+// chanMsgTransfer: ghost resources that travel with channel messages.
+func (fx *FnExec) chanMsgTransfer(st *State, fr *frame, et types.Type, v Term, cond Term, isSend bool, site ssa.Instruction) {
+	tn := typeName(et)
+	for _, cm := range fx.P.Specs.ChanMsgs {
+		if cm.TypeName != tn {
+			continue
+		}
+		env := &evalEnv{fx: fx, st: st, vars: map[string]cval{"msg": {t: v, typ: et, sort: fx.sortOf(et)}}, pkg: fx.P.TypesPkgs[cm.Pkg]}
+		if cm.Inv != nil {
+			iv := env.eval(cm.Inv)
+			if isSend {
+				fx.emit(st, fr, "chan-inv", fx.ord(fr.fn, site, "send")+"/"+tn[strings.LastIndex(tn, ".")+1:], iv.t, nil, cm.Inv.String())
+			} else {
+				st.assume("(=> " + cond + " " + iv.t + ")")
+			}
+			continue
+		}
+		amt := env.eval(cm.Amount)
+		cur := env.eval(cm.Ghost)
+		if isSend {
+			fx.emit(st, fr, "token", fx.ord(fr.fn, site, "send")+"/have:"+cm.Ghost.String(), "(>= "+cur.t+" "+amt.t+")", nil, "")
+			fx.assignGhost(st, env, cm.Ghost, "(- "+cur.t+" "+amt.t+")")
+		} else {
+			fx.assignGhost(st, env, cm.Ghost, "(ite "+cond+" (+ "+cur.t+" "+amt.t+") "+cur.t+")")
+		}
 	}
 }
 
@@ -1248,6 +1286,7 @@ func (fx *FnExec) doSend(st *State, fr *frame, x *ssa.Send) {
 	name := fx.ord(fr.fn, x, "send")
 	fx.emit(st, fr, "chan-open", name, "(not "+st.ghostLoad("chanclosed", "Bool", c)+")", nil, "")
 	fx.chanSendEffect(st, c, v, fx.sortOf(x.X.Type()), "true")
+	fx.chanMsgTransfer(st, fr, x.X.Type(), v, "true", true, x)
 }
 
 func (fx *FnExec) chanSendEffect(st *State, c, v Term, es string, cond Term) {
